@@ -7,6 +7,7 @@ import (
 	"os"
 	"sort"
 	"strings"
+	"sync/atomic"
 	"time"
 
 	"github.com/syndtr/goleveldb/leveldb"
@@ -17,6 +18,7 @@ import (
 	"github.com/syndtr/goleveldb/leveldb/storage"
 	"github.com/syndtr/goleveldb/leveldb/util"
 	"verifharness/lib/vlib"
+	"verifharness/lib/vstor"
 )
 
 // ---- DB-level programs ----
@@ -34,8 +36,10 @@ type optSpec struct {
 	OpenFiles    int  `json:"open_files"`
 	Sampling     int  `json:"sampling"` // IteratorSamplingRate; 0 = seek compaction disabled
 	NoLargeTxn   bool `json:"no_large_batch_txn"`
-	NoTableComp  bool `json:"no_table_compaction"` // level-0-only layout (see d5 note in main.go)
-	// never generated; set by hand in findings/*.json to reproduce the stale-block-cache defect
+	NoTableComp  bool `json:"no_table_compaction"` // level-0-only layout (a layout option like the others)
+	// BlockCacheEvictRemoved=false: blocks of removed tables stay in the block cache (generated since
+	// the file-number reuse defect 9e241f6 is repaired; findings/C02_stale_block_cache_after_discard.json
+	// is the old trigger)
 	KeepRemovedBlocks bool `json:"keep_removed_blocks,omitempty"`
 }
 
@@ -56,6 +60,7 @@ type op struct {
 	Limit  *hexbytes `json:"limit,omitempty"`
 	NoFill bool      `json:"nofill,omitempty"`
 	Moves  []move    `json:"moves,omitempty"`
+	FaultK int       `json:"fault_k,omitempty"` // fault_walk: the FaultK-th table read from now on fails
 }
 
 type dbCase struct {
@@ -82,9 +87,8 @@ func (o optSpec) build(cmp comparer.Comparer) *opt.Options {
 		DisableLargeBatchTransaction: o.NoLargeTxn,
 		NoSync:                       true,
 		Strict:                       opt.StrictAll,
-		// Without it, a table file number reused after Transaction.Discard (tOps.remove ->
-		// reuseFileNum) is served from the blocks the block cache still holds for the removed
-		// table: a defect of the write path / cache (not of the iterators), reported as a finding.
+		// false: the blocks of a removed table stay cached; its file number must then not be reused
+		// (tOps.remove, fixed 9e241f6) - both settings are generated
 		BlockCacheEvictRemoved: !o.KeepRemovedBlocks,
 	}
 	if o.Snappy {
@@ -128,6 +132,8 @@ func genOpts(r *vlib.RNG, small bool) optSpec {
 		OpenFiles:    []int{0, 2, 16}[r.Pick(1, 2, 1)], // 0 = default
 		NoLargeTxn:   r.Chance(1, 4),
 	}
+	o.KeepRemovedBlocks = r.Chance(1, 3)
+	o.NoTableComp = r.Chance(1, 8)
 	if small {
 		o.WriteBuffer = []int{128, 256, 512}[r.Intn(3)]
 		o.TableSize = []int{128, 256}[r.Intn(2)]
@@ -188,9 +194,9 @@ func (g *progGen) iterNew(view string, id int) {
 	}
 	if g.r.Chance(2, 3) {
 		o.Start, o.Limit = g.bound(), g.bound()
-		// an inverted range (Start > Limit) makes tFiles.newIndexIterator panic (tf[start:limit]) on
-		// the unchanged tree; it is reported as a finding, not generated
-		if o.Start != nil && o.Limit != nil && g.cmp.Compare(*o.Start, *o.Limit) > 0 {
+		// inverted ranges (Start > Limit) are generated: the view is empty (Props/C02.v
+		// C02_inverted_range_empty); two thirds of them are turned round to keep most ranges inhabited
+		if o.Start != nil && o.Limit != nil && g.cmp.Compare(*o.Start, *o.Limit) > 0 && g.r.Chance(2, 3) {
 			o.Start, o.Limit = o.Limit, o.Start
 		}
 	}
@@ -245,11 +251,10 @@ func (g *progGen) batch() []bop {
 	return b
 }
 
-func genDBCase(r *vlib.RNG, small bool, maxMove int, allowTableComp func(cid int) bool) *dbCase {
+func genDBCase(r *vlib.RNG, small bool, maxMove int) *dbCase {
 	cid := r.Intn(vlib.NumComparers)
 	c := &dbCase{Kind: "db", Cid: cid, Opts: genOpts(r, small), Settled: !r.Chance(1, 5)}
-	if !allowTableComp(cid) {
-		c.Opts.NoTableComp = true
+	if c.Opts.NoTableComp {
 		c.Opts.Sampling = 0
 	}
 	cmp := vlib.ComparerByID(cid)
@@ -374,6 +379,17 @@ func genDBCase(r *vlib.RNG, small bool, maxMove int, allowTableComp func(cid int
 			g.iterWalk(id)
 		}
 	}
+	// walks under a table read fault (vstor): only where no background read can consume the fault
+	if c.Settled && c.Opts.Sampling == 0 && !g.trOpen {
+		for i, n := 0, r.Range(0, 3); i < n; i++ {
+			o := op{T: "fault_walk", View: "db", NoFill: r.Bool(), FaultK: r.Pick(3, 3, 2, 2, 1, 1, 1, 1) + r.Pick(4, 1)*r.Intn(12),
+				Moves: genMoves(r, walkLen(r, g.maxMove), g.pool, g.pool)}
+			if r.Chance(1, 2) {
+				o.Start, o.Limit = g.bound(), g.bound()
+			}
+			g.ops = append(g.ops, o)
+		}
+	}
 	c.Ops = g.ops
 	return c
 }
@@ -407,6 +423,7 @@ type dbExec struct {
 	c          *dbCase
 	cmp        comparer.Comparer
 	stor       storage.Storage
+	vs         *vstor.Stor // = stor: the checker-owned storage (file bytes for the byte-level cases, read faults)
 	db         *leveldb.DB
 	model      map[string][]byte
 	snaps      map[int]*leveldb.Snapshot
@@ -427,6 +444,11 @@ type dbExec struct {
 	failCall int
 	curOp    int
 	walkFail bool // the failure is a disagreement of a movement call (shrinkable)
+	// byte-level (K) groups (bytes.go)
+	bcases *[]string
+	bmax   int
+	bgrp   *byteGroup
+	btr    *byteGroup
 }
 
 func copyMap(m map[string][]byte) map[string][]byte {
@@ -548,11 +570,11 @@ func (x *dbExec) settle() {
 }
 
 // settleAlways: before opening a transaction (explicitly, or implicitly by a batch larger than
-// the write buffer).  A transaction opened while a frozen memdb is still being flushed records
-// a sequence number that later makes the journal unreadable / loses writes (defect D6 of
-// DESIGN.md 2.3, properties C04/C11): not an iterator matter, so the trigger is not generated.
+// the write buffer).  Formerly unconditional (a transaction opened while a frozen memdb was still
+// being flushed hit defect D6, fixed 2a22e13); now only settled programs wait, unsettled ones open
+// transactions over a pending flush.
 func (x *dbExec) settleAlways() {
-	if x.tr == nil {
+	if x.tr == nil && x.c.Settled {
 		leveldb.VerifWaitCompaction(x.db)
 	}
 }
@@ -560,7 +582,8 @@ func (x *dbExec) settleAlways() {
 // run executes the program; returns false when a violation was recorded
 func (x *dbExec) run() (ok bool) {
 	ok = true
-	x.stor = storage.NewMemStorage()
+	x.vs = vstor.New(false)
+	x.stor = x.vs
 	x.model = map[string][]byte{}
 	x.snaps = map[int]*leveldb.Snapshot{}
 	x.smodel = map[int]map[string][]byte{}
@@ -572,6 +595,9 @@ func (x *dbExec) run() (ok bool) {
 	defer func() {
 		for _, is := range x.iters {
 			x.emitK(is)
+		}
+		x.emitBytes()
+		for _, is := range x.iters {
 			is.it.Release()
 		}
 		for _, s := range x.snaps {
@@ -715,6 +741,10 @@ func (x *dbExec) run() (ok bool) {
 			if !x.iterWalk(o) {
 				ok = false
 			}
+		case "fault_walk":
+			if !x.faultWalk(o) {
+				ok = false
+			}
 		case "iter_release":
 			if is := x.iters[o.ID]; is != nil {
 				x.emitK(is)
@@ -745,6 +775,10 @@ func (x *dbExec) iterNew(o op) bool {
 	var m map[string][]byte
 	var raw []leveldb.VerifRawEntry
 	var err error
+	keyBefore := ""
+	if x.bmax > 0 && x.c.Settled {
+		keyBefore, _, _, _ = x.stateKey()
+	}
 	switch {
 	case o.View == "db":
 		m = x.model
@@ -781,6 +815,7 @@ func (x *dbExec) iterNew(o op) bool {
 	is.cur = newCursor(is.exp, x.cmp)
 	is.raw = toRaw(raw)
 	x.iters[o.ID] = is
+	x.byteCapture(is, strings.SplitN(o.View, ":", 2)[0], keyBefore)
 	// second oracle: the raw entries must already amount to the same pairs
 	lr, heads := liveFromRaw(is.raw, is.seq, x.cmp, o.Start, o.Limit)
 	is.heads = heads
@@ -797,6 +832,11 @@ func (x *dbExec) iterNew(o op) bool {
 		x.res.Count("db_range_none", 1)
 	case o.Start != nil && o.Limit != nil:
 		x.res.Count("db_range_both", 1)
+		if c := x.cmp.Compare(*o.Start, *o.Limit); c > 0 {
+			x.res.Count("db_range_inverted", 1)
+		} else if c == 0 {
+			x.res.Count("db_range_start_eq_limit", 1)
+		}
 	case o.Start != nil:
 		x.res.Count("db_range_start_only", 1)
 	default:
@@ -863,6 +903,95 @@ func (x *dbExec) iterWalk(o op) bool {
 	return true
 }
 
+// faultWalk: a fresh DB iterator walked while the FaultK-th table read fails (non-corruption error).  Until
+// Error() is set the outputs must be the cursor's; once it is set every call returns false, not valid, nil
+// key and value, and the error stays.  The one tolerated deviation is the known defect of dbIter.prev()
+// (a stale pair returned by a backward call after the read failed, error not yet recorded).
+func (x *dbExec) faultWalk(o op) bool {
+	var ro *opt.ReadOptions
+	if o.NoFill {
+		ro = &opt.ReadOptions{DontFillCache: true}
+	}
+	var rg *util.Range
+	if o.Start != nil || o.Limit != nil {
+		rg = &util.Range{}
+		if o.Start != nil {
+			rg.Start = *o.Start
+		}
+		if o.Limit != nil {
+			rg.Limit = *o.Limit
+		}
+	}
+	exp := sortedView(x.model, x.cmp, o.Start, o.Limit)
+	cur := newCursor(exp, x.cmp)
+	f := &vstor.Fault{Kind: vstor.OpRead, Type: storage.TypeTable, K: o.FaultK}
+	x.vs.AddFault(f)
+	defer x.vs.Heal()
+	bad, known := "", ""
+	hung, pan := runGuarded(30*time.Second, func() {
+		it := x.db.NewIterator(rg, ro)
+		defer it.Release()
+		errSeen := false
+		for i, m := range o.Moves {
+			ob := applyIter(it, m)
+			err := it.Error()
+			if errSeen {
+				if ob.Ret || it.Valid() || ob.Key != nil || ob.Value != nil || err == nil {
+					bad = fmt.Sprintf("call %d %s after an error: returned %v valid %v key %x value %x error %v", i, m, ob.Ret, it.Valid(), ob.Key, ob.Value, err)
+					return
+				}
+				continue
+			}
+			if err != nil {
+				if f.Hits == 0 {
+					bad = fmt.Sprintf("call %d %s: Error() = %v although no read failed", i, m, err)
+					return
+				}
+				if ob.Ret || it.Valid() || ob.Key != nil || ob.Value != nil {
+					bad = fmt.Sprintf("call %d %s: Error() = %v but returned %v valid %v key %x value %x", i, m, err, ob.Ret, it.Valid(), ob.Key, ob.Value)
+					return
+				}
+				errSeen = true
+				x.res.Count("db_fault_walks_error_recorded", 1)
+				continue
+			}
+			ok, k, v := cur.apply(m)
+			if ob.Ret != ok || it.Valid() != ok || (ok && (!bytes.Equal(ob.Key, k) || !bytes.Equal(ob.Value, v))) || (!ok && (ob.Key != nil || ob.Value != nil)) {
+				d := fmt.Sprintf("call %d %s under a table read fault (reads failed so far: %d): returned %v key %x value %x, Error nil, cursor says %v key %x value %x", i, m, f.Hits, ob.Ret, ob.Key, ob.Value, ok, k, v)
+				if f.Hits > 0 && ob.Ret && (m.Op == "L" || m.Op == "P") {
+					known = "dbiter-prev-stale-on-raw-error"
+				}
+				bad = d
+				return
+			}
+		}
+	})
+	x.res.Count("db_fault_walks", 1)
+	if f.Hits > 0 {
+		x.res.Count("db_fault_walks_fault_fired", 1)
+	}
+	switch {
+	case hung:
+		x.violate("fault walk: a call did not return within 30s")
+		return false
+	case pan != nil:
+		x.violate(fmt.Sprintf("fault walk: panic %v", pan))
+		return false
+	case bad != "" && known != "":
+		x.res.Count("db_fault_known_"+known, 1)
+		// reported once per run at DB level (and twice at component level, errors.go)
+		if atomic.AddInt32(&knownReportedDB, 1) <= 1 {
+			atomic.AddInt32(&knownReported, 1)
+			x.res.ViolateKnown(fmt.Sprintf("DB iterator (%s, comparer %d): %s", x.label, x.c.Cid, bad), x.c, known)
+		}
+		return true
+	case bad != "":
+		x.violate("fault walk: " + bad)
+		return false
+	}
+	return true
+}
+
 func lenClass(n int) string {
 	switch {
 	case n <= 5:
@@ -916,7 +1045,8 @@ func (x *dbExec) stepInfo(is *iterState, from, to int) (hidden, cross bool) {
 
 // emitK renders the whole history of one iterator as a Coq case for the DBIter model
 func (x *dbExec) emitK(is *iterState) {
-	if x.kcases == nil || is.failed || len(is.moves) == 0 || len(is.raw) > x.kmax {
+	// walks on which the (P) oracle failed are emitted too (up to the failing call): (K) judges them independently
+	if x.kcases == nil || len(is.moves) == 0 || len(is.raw) > x.kmax {
 		return
 	}
 	n := len(is.moves)
@@ -942,14 +1072,22 @@ func (x *dbExec) emitK(is *iterState) {
 	x.res.Count("k_dbiter_cases", 1)
 }
 
-func execDB(c *dbCase, res *vlib.Result, label string, kcases *[]string, kmax, kmoves int, limit time.Duration) (x *dbExec, hung bool, pan interface{}) {
+type kbytesOut struct {
+	cases *[]string
+	max   int // max bytes of a dumped state; 0 = no byte-level cases
+}
+
+func execDB(c *dbCase, res *vlib.Result, label string, kcases *[]string, kmax, kmoves int, limit time.Duration, kb *kbytesOut) (x *dbExec, hung bool, pan interface{}) {
 	x = &dbExec{c: c, cmp: vlib.ComparerByID(c.Cid), res: res, kcases: kcases, kmax: kmax, kmoves: kmoves, label: label, failCall: -1}
+	if kb != nil {
+		x.bcases, x.bmax = kb.cases, kb.max
+	}
 	hung, pan = runGuarded(limit, func() { x.run() })
 	return
 }
 
-func runDBCase(c *dbCase, res *vlib.Result, label string, kcases *[]string, kmax, kmoves int) (ok bool, walks, nontrivial int) {
-	x, hung, pan := execDB(c, res, label, kcases, kmax, kmoves, 300*time.Second)
+func runDBCase(c *dbCase, res *vlib.Result, label string, kcases *[]string, kmax, kmoves int, kb *kbytesOut) (ok bool, walks, nontrivial int) {
+	x, hung, pan := execDB(c, res, label, kcases, kmax, kmoves, 300*time.Second, kb)
 	if hung {
 		res.Violate(fmt.Sprintf("DB program (%s): did not finish within 300s", label), c)
 		return false, x.walks, x.nontrivial
@@ -979,7 +1117,7 @@ func shrinkDB(c *dbCase, failOp, failCall int, label string) (*dbCase, string) {
 	try := func(ops []op) (bool, string) {
 		cand := *c
 		cand.Ops = ops
-		x, hung, pan := execDB(&cand, scratch, label, nil, 0, 0, 20*time.Second)
+		x, hung, pan := execDB(&cand, scratch, label, nil, 0, 0, 20*time.Second, nil)
 		return !hung && pan == nil && x.vdesc != "" && x.walkFail, x.vdesc
 	}
 	cur := append([]op{}, c.Ops[:failOp+1]...)
